@@ -90,7 +90,10 @@ func setNodeKey(ctx context.Context, key string) context.Context {
 	if !existed || len(path.path) == 0 {
 		return context.WithValue(ctx, nodePathKey{}, NewNodePath(key))
 	}
-	return context.WithValue(ctx, nodePathKey{}, NewNodePath(append(path.path, key)...))
+	// copy: sibling nodes extend the same parent path and must not share its backing array
+	nPath := make([]string, 0, len(path.path)+1)
+	nPath = append(append(nPath, path.path...), key)
+	return context.WithValue(ctx, nodePathKey{}, NewNodePath(nPath...))
 }
 
 func getStateModifier(ctx context.Context) StateModifier {
